@@ -438,8 +438,14 @@ impl<S: PageSize> Iterator for PageRangeInclusive<S> {
             // If the end of the inclusive range is the maximum page possible for size S,
             // incrementing start until it is greater than the end will cause an integer overflow.
             // So instead, in that case we decrement end rather than incrementing start.
+            // The same applies to the last page of the lower half: the address
+            // following it is not canonical.
             let max_page_addr = VirtAddr::new(u64::MAX) - (S::SIZE - 1);
-            if self.start.start_address() < max_page_addr {
+            let max_lower_half_page_addr = VirtAddr::new(0x7fff_ffff_ffff) - (S::SIZE - 1);
+            if self.start < self.end
+                || (self.start.start_address() < max_page_addr
+                    && self.start.start_address() != max_lower_half_page_addr)
+            {
                 self.start += 1;
             } else {
                 self.end -= 1;
